@@ -8,7 +8,8 @@
    implementation's own write -> read round trip; see DESIGN.md for what is assumed of
    strconv and fmt. *)
 From Coq Require Import ZArith QArith NArith Arith List String Ascii Bool.
-From Inkfem Require Import Model.Types Model.Regex Gen.GenRegex Model.Read Proofs.ReadProofs.
+From Inkfem Require Import Model.Types Model.Regex Gen.GenRegex Model.Read Proofs.ReadProofs
+  Model.Template Gen.GenTemplates Proofs.TemplateProofs.
 Import ListNotations.
 Local Open Scope string_scope.
 Local Close Scope Q_scope.
@@ -50,6 +51,15 @@ Print Assumptions C10_ignored_lines_invisible.
 Theorem C10_leading_space_invisible : forall p s, all_space p = true -> ltrim (p ++ s) = ltrim s.
 Proof. exact ltrim_pad. Qed.
 Print Assumptions C10_leading_space_invisible.
+
+(* the writer: io/def/definition.template.txt (regenerated parse tree, model of text/template tied to Go's
+   output by stage G) renders, for EVERY structure, exactly the documented layout: version, |nodes|,
+   |materials|, |sections|, |loads| - per bar its concentrated then its distributed loads, each line
+   naming the term, l / g and c / d, the BAR'S OWN id, positions and values - and |bars| *)
+Theorem C10_definition_file_is_the_documented_layout : forall d : def_doc,
+  render tmpl_definition (def_ctx d) = spec_definition d.
+Proof. exact definition_template_renders_the_documented_layout. Qed.
+Print Assumptions C10_definition_file_is_the_documented_layout.
 
 (* numbers: the decimal grammar, scientific notation included, denotes its exact value *)
 Example C10_number_spellings :
